@@ -47,4 +47,38 @@ CLAIMS["C10"] = {
     "technique": "Lean 4 proof (round-trip induction; decide over regenerated frame facts) + correspondence with the real loader/runtime; GC stress as exploration",
 }
 
+CLAIMS["C05"] = {
+    "text": "Block-wise scanners parametric in the block widths are modelled over a partial memory (unmapped bytes fault); no_fault and content_only are proved "
+            "for every placement, trailing content, alignment and width for the string/space/number/special-byte scanners, page-granular versions for the "
+            "intentionally over-reading container skipper, and kernel-checked counter-witnesses where the C over-reads (leading-zero check, 4-byte literal "
+            "compare). The assembled machine code is validated by hostile placement: every entry point on the heap, ending at a PROT_NONE page, and followed "
+            "by plausible continuations, in both SIMD modes.",
+    "note": COMMON_NOTE + " Partial by nature: Lean says nothing about what the machine code loads; the guard page observes it.",
+    "technique": "Lean 4 proof (memory-indexed scanner models, any block width) + guard-page placement correspondence",
+}
+CLAIMS["C06"] = {
+    "text": "A heap-of-buffers model with owner tags (pool/caller/internal) of the encoder's copy-out/hand-over/pool logic, EncodeInto, indent, ast marshal and "
+            "the decoder's copy rules, with an ownership invariant proved for every history, every sync.Pool choice, every growslice rounding and every native "
+            "meeting the stated contract: returned bytes stable, no write outside capacity, output independent of capacity/prior contents/pool state, decoded "
+            "values never alias the input. Histories are replayed on the real code with re-hashing of earlier results, guard pages behind capacities and scribbling.",
+    "note": COMMON_NOTE + " Interleavings inside a call are not modelled (histories are sequences of whole calls; concurrent bursts only observe).",
+    "technique": "Lean 4 proof (invariant by induction over operation histories) + history correspondence with guard pages",
+}
+CLAIMS["C13"] = {
+    "text": "width_irrelevant theorems: for all block-width lists the scanners equal their scalar twin (space skipping, special-byte search, string end with "
+            "escape carry, bracket counting, number skipping accept/length), so AVX2 and SSE builds are the same function at model level, with kernel-checked "
+            "witnesses for the two places where they are not (uninitialised byte, error position of doubly malformed numbers); every op stream runs under both "
+            "SONIC_MODE settings and must be bit-identical.",
+    "note": COMMON_NOTE + " The mask bit tricks (odd-backslash carry, prefix xor) are specified by the carry automaton, not proved against the SIMD intrinsics.",
+    "technique": "Lean 4 proof (block-width irrelevance by induction) + differential runs AVX2 vs SSE",
+}
+CLAIMS["C17"] = {
+    "text": "Reader scripts (data, empty reads, data+EOF, errors), the stream decoder state machine and the stream encoder's write loop are modelled; for the "
+            "REPAIRED model chunking irrelevance, truncation-is-error, reader-error-after-values, progress and encoder delivery/first-failure are proved for all "
+            "scripts; for the SHIPPED model the negations are kernel-checked on concrete witnesses (replayed on the real code, listed as known findings) and "
+            "partial theorems hold for self-delimited values. Real decoder/encoder are run on the same scripted readers/writers next to encoding/json.",
+    "note": COMMON_NOTE + " Native skip framing and sonic's number rule are tied by correspondence only.",
+    "technique": "Lean 4 proof (state-machine refinement to value-by-value decoding, generic in the inner decoder) + scripted reader/writer correspondence",
+}
+
 NOT_CLAIMED = {}
